@@ -63,6 +63,30 @@ CLAIMED = {
          'plus all 2^(n-1) chunkings of short streams and random chunkings of long random sequences.',
          'Trusted: TLC, the independent encoder/decoder used to build and describe frames. Frame contents come from a fixed table per body length.',
          'DESIGN 6/C04', 'parser'),
+ 'C11': ('model_checking',
+   'TLC trace validation of recorded executions of the real endpoints against RSocket.tla (+ design-level TLC model checking of the same monitors)',
+   'Cut family: 0-4 pending interactions in both roles, then the TCP link is cut at an arbitrary byte offset (mid-frame and mid-fragment included), by orderly EOF or by a connection reset, or an endpoint calls close(); several keep-alive periods of virtual time pass. Clauses: every pending requester failed, every responder-side producer cancelled, on_close exactly once per connection, no frame and no keep-alive after the close notification.',
+   CONN_NOTE, 'DESIGN 6/C11', 'conn'),
+ 'C12': ('model_checking',
+   'TLC trace validation of recorded executions of the real endpoints against RSocket.tla (+ design-level TLC model checking of the same monitors)',
+   'Hostile family: twenty classes of junk frames built by an independent encoder are injected towards either endpoint, and interactions run whose application code raises at every entry point (handler methods, publisher subscribe/request/cancel, subscriber callbacks, failing futures, raising generators); a witness stream must still complete with all its payloads, a probe request must be served, both tasks stay alive, the connection is not closed, every run terminates under a watchdog.',
+   CONN_NOTE, 'DESIGN 6/C12', 'conn'),
+ 'C14': ('model_checking',
+   'TLC trace validation of recorded executions of the real endpoints against RSocket.tla (+ design-level TLC model checking of the same monitors)',
+   'Lease monitor of RSocket.tla on recorded runs of a lease-honouring client against a real server with a scripted lease publisher under virtual time: no request before the first LEASE, at most the granted count per lease, none after the ttl, FIFO release, each request sent at most once, LEASE frames carry exactly the published count and ttl in ms.',
+   CONN_NOTE, 'DESIGN 6/C14', 'conn'),
+ 'C15': ('model_checking',
+   'TLC trace validation of recorded executions of the real endpoints against RSocket.tla (+ design-level TLC model checking of the same monitors)',
+   'Keep-alive monitor under a virtual clock: a real client against a scripted server with acknowledgement patterns always / never / until t / only after t / delayed (delays just below and above the lifetime), periods and lifetimes from 50 ms to 10 min including lifetime < period; both endpoints real for the echo clauses (exactly one echo, same data, flag cleared, none without the flag).',
+   CONN_NOTE, 'DESIGN 6/C15', 'conn'),
+ 'C16': ('model_checking',
+   'TLC trace validation of recorded executions of the real endpoints against RSocket.tla (+ design-level TLC model checking of the same monitors)',
+   'SETUP monitor: the decoded SETUP of a real client (independent decoder) must state the configured periods in ms, MIME types, lease flag, payload and version 1.0 and be the first frame on the wire whatever was requested while connect() - with suspending and non-suspending transports and providers - was in progress; a scripted client sends SETUP variants / RESUME to a real server, which must call on_setup exactly once for an acceptable SETUP and answer the others with the matching error code on stream 0.',
+   CONN_NOTE, 'DESIGN 6/C16', 'conn'),
+ 'C17': ('model_checking',
+   'TLC trace validation of recorded executions of the real endpoints against RSocket.tla (+ design-level TLC model checking of the same monitors)',
+   'Reconnect monitor: after reconnect() - previous connection ended by server EOF, connection reset, server close, keep-alive timeout or while healthy, with 0-3 interactions pending, 1-3 consecutive reconnects - the old transport was closed, everything pending on it failed, a new transport was taken, SETUP is its first frame, ids restart, keep-alives restart, a probe request is served.',
+   CONN_NOTE, 'DESIGN 6/C17', 'conn'),
 }
 
 NOT_YET = 'machinery for this property is still being built in this round (see DESIGN.md section 11); not claimed until its check exists'
